@@ -315,7 +315,38 @@ def site_operands(body, s, mode):
     return bound, cont
 
 
+def range_bounds(body, s):
+    """(start leaves, end leaves) of a `[a..b]` site"""
+    t = body.term(s["bb"])
+    if t["k"] != "call" or len(t["args"]) < 2:
+        return None
+    for r in trace(body, t["args"][1]):
+        if r.kind == "agg" and r.obj is not None and "range::Range" in str(r.what):
+            fl = r.obj.get("fields", [])
+            if "start" in fl and "end" in fl:
+                return leaves(body, r.obj["ops"][fl.index("start")]), leaves(body, r.obj["ops"][fl.index("end")])
+    return None
+
+
 def relation_ok(body, s, variant, mode):
+    if mode == "range":
+        # `x[a..b]` panics when b > len OR a > b: the end is compared with the length and the two bounds with each other
+        ok, why = relation_ok(body, s, variant, "end")
+        if not ok:
+            return ok, why
+        sb = range_bounds(body, s)
+        if sb is None:
+            return False, "cannot identify the two bounds of the range"
+        S = {x for x in sb[0] if x[0] == "v"}
+        E = {x for x in sb[1] if x[0] == "v"}
+        for (sw, err_edge, rv) in guard_comparisons(body, variant):
+            if not (sw != s["bb"] and body.dominates(sw, s["bb"]) and s["bb"] not in body.reachable([err_edge])):
+                continue
+            L = leaves(body, rv["a"])
+            R = leaves(body, rv["b"])
+            if (L & S and R & E) or (L & E and R & S):
+                return True, why + "; guard at bb%d compares the start of the range with its end" % sw
+        return False, "no dominating Err(%s) guard compares the start of the range with its end (a reversed range panics)" % variant
     ops = site_operands(body, s, mode)
     if ops is None:
         return False, "cannot identify the %s operand of the site" % mode
